@@ -4,6 +4,7 @@
 #define _GNU_SOURCE
 #include <sys/mman.h>
 #include <sys/stat.h>
+#include <sys/time.h>
 #include <sys/wait.h>
 
 #include <errno.h>
@@ -396,22 +397,40 @@ crash_sig(struct outcome * o, int st)
 	if ((p = strstr(buf, "Assertion")) != NULL) {
 		/* prog: file.c:LINE: func: Assertion `expr' failed. */
 		char * ls = p;
-		const char * func = "?";
-		char expr[100] = "";
-		char * c1;
+		char func[64] = "?";
+		char * c1, * par;
 
 		while (ls > buf && ls[-1] != '\n')
 			ls--;
-		/* find "func: Assertion" */
-		c1 = p - 2;	/* points at ':' before " Assertion" */
+		/* "prog: file.c:LINE: <pretty function>: Assertion": take the identifier before '(' */
+		c1 = p - 2;
 		if (c1 > ls) {
-			char * fs = c1;
-
 			*c1 = 0;
-			while (fs > ls && fs[-1] != ' ')
-				fs--;
-			func = fs;
+			par = strrchr(ls, '(');
+			if (par != NULL) {
+				/* pretty function may contain "(*)(" in its parameter list: use the first '(' after the file:line part */
+				char * fl = strstr(ls, ".c:");
+				char * st = fl ? strchr(fl + 3, ' ') : ls;
+
+				par = st ? strchr(st, '(') : NULL;
+			}
+			if (par != NULL) {
+				char * fs = par;
+				size_t l;
+
+				while (fs > ls && (fs[-1] == '_' || (fs[-1] >= '0' && fs[-1] <= '9') ||
+				    (fs[-1] >= 'a' && fs[-1] <= 'z') || (fs[-1] >= 'A' && fs[-1] <= 'Z')))
+					fs--;
+				l = (size_t)(par - fs);
+				if (l >= sizeof(func))
+					l = sizeof(func) - 1;
+				memcpy(func, fs, l);
+				func[l] = 0;
+			}
 		}
+		{
+			char expr[100] = "";
+
 		if ((q = strchr(p, '`')) != NULL || (q = strchr(p, '\'')) != NULL) {
 			char * e = strstr(q + 1, "' failed");
 
@@ -426,6 +445,7 @@ crash_sig(struct outcome * o, int st)
 		}
 		snprintf(o->sig, sizeof(o->sig), "assert:%s:%s", func, expr);
 		snprintf(o->msg, sizeof(o->msg), "assertion failed in %s: %s", func, expr);
+		}
 	} else if ((p = strstr(buf, "ERROR: AddressSanitizer: ")) != NULL) {
 		char kind[64];
 		const char * rw = "";
@@ -450,6 +470,15 @@ crash_sig(struct outcome * o, int st)
 		snprintf(o->sig, sizeof(o->sig), "exit:%d", WEXITSTATUS(st));
 		snprintf(o->msg, sizeof(o->msg), "child exited with status %d", WEXITSTATUS(st));
 	}
+}
+
+static void
+sig_normalise(char * s)
+{
+
+	for (; *s; s++)
+		if (*s == ' ' || *s == '\t')
+			*s = '_';
 }
 
 static void
@@ -515,6 +544,22 @@ run_one(const struct plan * P, uint64_t seed, int fromseed, struct outcome * o)
 		o->kind = 3;
 		snprintf(o->oracle, sizeof(o->oracle), "%s.crash", sim_prop);
 		crash_sig(o, st);
+		sig_normalise(o->sig);
+	}
+	if (o->kind == 3 || o->kind == 4) {
+		/* Which property does a crash of this run contradict? */
+		int mine = 1;
+
+		R->crash_prop[sizeof(R->crash_prop) - 1] = 0;
+		if (sim_c14)
+			mine = R->af_fired;
+		else if (R->crash_prop[0] != 0 && sim_prop[0] != 0 && strcmp(R->crash_prop, sim_prop) != 0)
+			mine = 0;
+		if (!mine) {
+			o->kind = 0;
+			R->foreign++;
+			snprintf(R->foreign_first, sizeof(R->foreign_first), "%s.crash", R->crash_prop);
+		}
 	}
 }
 
@@ -587,7 +632,7 @@ batch(uint64_t first, uint64_t count, const char * prefix, int maxreport)
 	FILE * jf, * hf;
 	uint64_t s;
 	int reported = 0, i;
-	struct timespec t0, t1;
+	struct timeval t0, t1;
 
 	memset(&T, 0, sizeof(T));
 	snprintf(path, sizeof(path), "%s.jsonl", prefix);
@@ -601,7 +646,7 @@ batch(uint64_t first, uint64_t count, const char * prefix, int maxreport)
 		return (2);
 	}
 	errfd = memfd_create("verif-err", 0);
-	clock_gettime(CLOCK_MONOTONIC, &t0);
+	gettimeofday(&t0, NULL);
 	for (s = first; s < first + count; s++) {
 		sim_af_step = sim_af_k = -1;
 		sim_af_persist = 0;
@@ -638,14 +683,14 @@ batch(uint64_t first, uint64_t count, const char * prefix, int maxreport)
 			}
 		}
 	}
-	clock_gettime(CLOCK_MONOTONIC, &t1);
+	gettimeofday(&t1, NULL);
 	fprintf(jf, "{\"t\":\"summary\",\"first\":%" PRIu64 ",\"count\":%" PRIu64 ",\"runs\":%" PRIu64
 	    ",\"held\":%" PRIu64 ",\"viol\":%" PRIu64 ",\"crash\":%" PRIu64 ",\"internal\":%" PRIu64
 	    ",\"hang\":%" PRIu64 ",\"foreign\":%" PRIu64 ",\"sim_ns\":%" PRIu64 ",\"steps\":%" PRIu64
 	    ",\"nontrivial\":%" PRIu64 ",\"af_points\":%" PRIu64 ",\"wall_s\":%.3f,\"cnt\":{",
 	    first, count, T.runs, T.held, T.viol, T.crash, T.internal, T.hang, T.foreign, T.sim_ns,
 	    T.steps, T.nontrivial, T.af_points,
-	    (double)(t1.tv_sec - t0.tv_sec) + (double)(t1.tv_nsec - t0.tv_nsec) / 1e9);
+	    (double)(t1.tv_sec - t0.tv_sec) + (double)(t1.tv_usec - t0.tv_usec) / 1e6);
 	for (i = 0; engine_counters[i] != NULL && i < REC_NCNT; i++)
 		fprintf(jf, "%s\"%s\":%" PRIu64, i ? "," : "", engine_counters[i], T.cnt[i]);
 	fprintf(jf, "}}\n");
